@@ -168,7 +168,7 @@ class Check:
             "wall_s": round(wall, 2),
             "violations": len(self.violations),
         }
-        EVID.mkdir(exist_ok=True)
+        EVID.mkdir(parents=True, exist_ok=True)
         (EVID / f"{self.pid}.json").write_text(json.dumps(ev, indent=1, default=str))
         status = "VIOLATED" if self.violations else ("HARNESS-ERROR" if self.harness_errors else "held")
         print(
